@@ -19,4 +19,9 @@ forget the PUBREC (C02: `c02_rec_phase_closed` / `c02_no_republish`; seeded C02,
 of the write) -/
 theorem session_handlePubrec_order : Gen.handlePubrecOrderOk = true := rfl
 
+/-- T1: `Client._handle_pubrel` removes the stored message first (only when the id is stored), delivers what it removed, and then
+answers with PUBCOMP unless manual acknowledgement is on - whether the id was known plays no part in that last decision (C03:
+`c03_pubcomp`, `c03_pubrel_once`, `c03_manual`; seeded X30, C03e, X43 changed exactly this) -/
+theorem session_handlePubrel_shape : Gen.handlePubrelShapeOk = true := rfl
+
 end Paho
